@@ -31,7 +31,8 @@ extern "C" void h_isolation(void) {
    // ---- Lexicon B with a unit and a populated scope, fingerprinted
    zoo::World* b = new zoo::World; b->concrete = true;
    Tracker tb;
-   for (unsigned k = 0; k < total; k += 7) zoo::build(*b, k, tb);
+   for (unsigned k = 0; k < total; k += 7) { b->reg = b->unit.global_region()->make_subregion(); zoo::build(*b, k, tb); }      // each case declares into a scope of its own
+   b->reg = b->unit.global_region();
    b->reg->declare_var(*b->N[0], *b->T[0]); b->reg->declare_var(*b->N[0], *b->T[0]);
    tb.node<ipr::Scope>(b->reg->scope);
    { std::ostringstream& ob = *new std::ostringstream; Printer pb { b->lx, ob }; vp_outcome([&] { pb << b->unit; }); b->lx.decompose(b->lx.static_specifier() | b->lx.inline_specifier()); }
